@@ -18,13 +18,16 @@ from pyvc.logic import LCnd, LInt, LLCnd, LLInt, check_valid
 from pyvc.values import StrSort
 
 
-def _prove(name, obligations, exclude=()):
+def _prove(name, obligations, exclude=(), extra_axioms=(), fuel=4):
     """obligations: list of (label, hyps, goal, seed_terms)"""
     worst = "proved"
     parts = []
     secs = 0.0
     for label, hyps, goal, seeds in obligations:
-        st, info = check_valid(hyps, goal, exclude=exclude, seed_terms=seeds, fuel=4)
+        for fl in range(min(fuel, 4), fuel + 1):
+            st, info = check_valid(hyps, goal, exclude=exclude, seed_terms=seeds, fuel=fl, extra_axioms=extra_axioms)
+            if st == "proved":
+                break
         parts.append({"part": label, "status": st})
         secs += info.get("seconds", 0)
         if st != "proved":
@@ -263,6 +266,96 @@ def lemma_SumIV_concat():
     return {"name": "lemma.SumIV.concat", "status": st, "parts": r1["parts"] + r2["parts"], "seconds": r1["seconds"] + r2["seconds"]}
 
 
+def lemma_CoveredUpTo_snoc():
+    from contracts import c_mcs as M
+
+    F = z3.Const("F_cus", M.LKS.sort)
+    a, X = z3.Consts("a_cus X_cus", M.KSet)
+    n = z3.Int("n_cus")
+    C = M.CoveredUpTo
+    W = z3.Function("CoveredUpTo!w", M.LKS.sort, M.KSet, L.Int, L.Int)
+    sn = M.LKS.snoc(F, a)
+    m = M.LKS.len(F)
+    return _prove(
+        "CoveredUpTo.snoc",
+        [
+            ("=>", [n == m + 1, C(sn, X, n)], z3.Or(C(F, X, m), z3.IsSubset(a, X)), [M.LKS.at(F, W(sn, X, n))]),
+            ("<= old", [n == m + 1, C(F, X, m)], C(sn, X, n), [M.LKS.at(sn, W(F, X, m))]),
+            ("<= new", [n == m + 1, z3.IsSubset(a, X)], C(sn, X, n), [M.LKS.at(sn, m)]),
+        ],
+        exclude=["CoveredUpTo.snoc"],
+    )
+
+
+def lemma_MCS_bridge():
+    """what the enumeration loop establishes (mcs_structural) implies that R represents exactly the
+    inclusion-minimal violated sets (mcs_pointwise); no induction, the hypotheses are used per part"""
+    from contracts import c_mcs as M
+
+    R = z3.Const("R_mb", LLInt.sort)
+    X = z3.Const("X_mb", M.LKS.sort)
+    H0 = z3.Const("H_mb", L.WSet)
+    val = z3.Const("val_mb", M.CMapS)
+    NI = z3.Const("NI_mb", M.KSet)
+    st = M.mcs_structural(R, X, H0, val, NI)
+    rs_sound, rs_complete, rs_len, realised, exhaustive, emp = st
+    pw = M.mcs_pointwise(R, H0, val, NI)
+    snd, cmpl, emp2 = pw
+    i = snd.vars[0]
+    S = M.setofK(LLInt.at(R, i))
+    rng = z3.And(0 <= i, i < LLInt.len(R))
+    from pyvc.logic import Forall
+
+    g_real = Forall([i], snd.triggers, z3.Implies(rng, M.Realised(H0, val, NI, S)), "bridge.sound.realised")
+    g_nosm = Forall([i], snd.triggers, z3.Implies(rng, M.NoSmaller(H0, val, NI, S)), "bridge.sound.nosmaller")
+    return _prove(
+        "MCS.bridge (structural => pointwise)",
+        [
+            ("sound: realised", [rs_sound, realised], g_real, []),
+            ("sound: no smaller", [rs_sound, realised, exhaustive], g_nosm, []),
+            ("complete", [rs_complete, realised, exhaustive], cmpl, []),
+            ("empty", [emp], emp2, []),
+        ],
+        extra_axioms=M.MCS_AXIOMS,
+        fuel=8,
+    )
+
+
+def lemma_MCS_bridge2():
+    """the pointwise form implies the clauses of the interface contract MCS (contracts/c_rc2backends.py),
+    which speak about the FAMILY of violated sets: FamOfLL(R) == MinFamK(H, val, NI), emptiness, members"""
+    from contracts import c_mcs as M
+    from contracts import c_rc2backends as RC
+    from pyvc.logic import Forall
+
+    R = z3.Const("R_mb2", LLInt.sort)
+    H0 = z3.Const("H_mb2", L.WSet)
+    val = z3.Const("val_mb2", M.CMapS)
+    NI = z3.Const("NI_mb2", M.KSet)
+    snd, cmpl, emp = M.mcs_pointwise(R, H0, val, NI)
+    fam, MF = RC.FamOfLL(R), RC.MinFamK(H0, val, NI)
+    d = M.KFdiff(fam, MF)
+    e0 = z3.EmptySet(M.KSet)
+    d0 = M.KFdiff(fam, e0)
+    ext = z3.Implies(fam != MF, z3.IsMember(d, fam) != z3.IsMember(d, MF))
+    ext0 = z3.Implies(fam != e0, z3.IsMember(d0, fam) != z3.IsMember(d0, e0))
+    first = M.setofK(LLInt.at(R, 0))
+    xs = z3.Const("xs_mb2", M.KSet)
+    kk = z3.Int("k_mb2")
+    members = Forall([xs, kk], [z3.IsMember(kk, xs)], z3.Implies(z3.And(z3.IsMember(xs, fam), z3.IsMember(kk, xs)), z3.IsMember(kk, NI)), "mcs.members.not.ignored")
+    return _prove(
+        "MCS.bridge2 (pointwise => interface contract)",
+        [
+            ("family", [snd, cmpl, ext], fam == MF, []),
+            ("empty list <=> empty hard set", [emp], (LLInt.len(R) == 0) == L.isempty(H0), []),
+            ("empty list <=> empty family", [snd, ext0], (LLInt.len(R) == 0) == (fam == e0), [z3.IsMember(first, fam), LLInt.at(R, 0)]),
+            ("members not ignored", [snd], members, []),
+        ],
+        extra_axioms=M.MCS_AXIOMS,
+        fuel=8,
+    )
+
+
 def lemma_mem_at():
     mem, memw = L.mem_theory(L.Int)
     l = z3.Const("l_mat", LInt.sort)
@@ -277,6 +370,9 @@ LEMMAS = {
     "SumCong.Gp": lambda: lemma_SumCong("Gp"),
     "SumIV.concat": lemma_SumIV_concat,
     "mem.at.Int": lemma_mem_at,
+    "CoveredUpTo.snoc": lemma_CoveredUpTo_snoc,
+    "MCS.bridge": lemma_MCS_bridge,
+    "MCS.bridge2": lemma_MCS_bridge2,
     "RangeList": lemma_RangeList,
     "L2a": lemma_L2a,
     "lenGLs": lambda: lemma_lenGLs(PS, LCnd, LLCnd, (), ""),
